@@ -202,6 +202,8 @@ func c14(tier string) []*explore.Scenario {
 	for _, ops := range []string{"h", "H", "s", "t", "r", "hs", "Hs", "sh", "ts", "hh"} {
 		out = append(out, c14AfterCancel(ops, bound))
 	}
+	// a stream cancelled long after it was opened (the C07 scenario, reporting its idle-state clause here)
+	out = append(out, donors("C14", []*explore.Scenario{c07OldStream(31*time.Second, bound), c07OldStream(time.Hour, bound)})...)
 	// the user closes the ClientConn while calls are in flight
 	for _, ctxRace := range []bool{false, true} {
 		out = append(out, c14CloseInFlight(ctxRace, bound))
